@@ -31,9 +31,28 @@
 (* remove slots of other tunnels; an overwritten exit connection lives on  *)
 (* as a zombie (its goroutine still owns the target connection).           *)
 (*                                                                         *)
+(* Behaviour that does not depend on colliding ids is part of the model as  *)
+(* well, each with a named deviation:                                      *)
+(*  - Split = TRUE: a transit handles a data frame in two steps            *)
+(*    (RelayLookup under the table lock, RelaySend after it), so closes    *)
+(*    and opens of other frame loops interleave (DevRelayEntryRecycled);   *)
+(*  - closes that originate at the exit (TargetClose, ExitExpire) with     *)
+(*    Burn-skewed allocators, i.e. different ids on the two hops           *)
+(*    (DevCloseUpstreamWrongId);                                           *)
+(*  - back-pressure: BufCap > 0 bounds an ingress stream's read buffer,    *)
+(*    a full buffer blocks the frame loop, nothing is ever dropped         *)
+(*    (DevPushTimeoutDrop);                                                *)
+(*  - damaged data frames (Corrupt) end the tunnel and release its record  *)
+(*    (DevDataErrorKeepsRecord); failing opens release the counter         *)
+(*    (DevCounterLeakOnOpenFail);                                          *)
+(*  - Ops "reconn": a link failure in two phases (LinkDown, then each      *)
+(*    end's DiscCleanup) with a Reconnect in between                       *)
+(*    (DevSkipCleanupIfReconnected, invariant NoStaleEntry).               *)
+(*                                                                         *)
 (* Bound: every agent plays one role per topology; one connection per      *)
-(* pair, no reconnect; a link failure is one atomic step (both queues      *)
-(* lost, both ends run their disconnect clean-up).                         *)
+(* pair, at most one reconnect per link and no new tunnel over a           *)
+(* re-established connection; without "reconn" a link failure is one       *)
+(* atomic step (both queues lost, both ends run their clean-up).           *)
 (***************************************************************************)
 EXTENDS Naturals, Sequences, FiniteSets, TLC, Json
 
@@ -43,14 +62,23 @@ CONSTANTS Topo,       \* "star" | "vee" | "fanin" | "fork" | "chain"
           Keying,     \* "peer+sid" (ideal) | "sid" (DevKeyedByStreamIdOnly)
           SidSites,   \* subset of {"ingress","relay","exit"}: tables keyed by the bare id when Keying = "sid"
           Dev,        \* further deviations
-          Ops,        \* optional operations: subset of {"fail","rev","reset","disc","cancel","tclose"}
+          Ops,        \* optional operations: subset of {"fail","rev","reset","disc","cancel","tclose","xexpire","corrupt","reconn"}
           MaxF, MaxR, \* data frames per tunnel: ingress -> exit, exit -> ingress
+          Split,      \* TRUE: a transit handles a data frame in two steps (RelayLookup, RelaySend), as the code does:
+                      \*       the entry is looked up under the table lock and used after the lock is released
+          BufCap,     \* capacity of an ingress stream's read buffer in frames (0 = the application reads at once)
+          Burn,       \* sides "A>T" whose allocator has already handed out one id (ids of the two hops of a tunnel differ)
           Emit        \* TRUE: print every transition as JSON
 
 DevNames == {"DevUdpIcmpRelayNotCleaned",     \* cleanupRelaysForPeer handles only the tcp table
              "DevNoReverseIndexDelete",       \* close/reset remove only the index that matched
              "DevCounterLeakOnOpenFail",      \* counter taken before the dial, not returned on failure
-             "DevDataNoPeerCheck"}            \* relay data routed by id without comparing the peer
+             "DevDataNoPeerCheck",            \* relay data routed by id without comparing the peer
+             "DevRelayEntryRecycled",         \* a removed relay entry is re-initialised for the next tunnel while a handler still uses it
+             "DevPushTimeoutDrop",            \* a full read buffer makes the ingress drop the frame instead of blocking the sender
+             "DevCloseUpstreamWrongId",       \* udp/icmp close from the exit side forwarded upstream under the downstream id
+             "DevSkipCleanupIfReconnected",   \* disconnect clean-up skipped when the peer is already connected again
+             "DevDataErrorKeepsRecord"}       \* a data frame that fails authentication closes the socket but keeps the record
 ASSUME Dev \subseteq DevNames /\ Keying \in {"peer+sid", "sid"}
 ASSUME SidSites \subseteq {"ingress", "relay", "exit"}
 
@@ -106,15 +134,22 @@ VARIABLES linkUp,   \* [Links -> BOOLEAN]
           nf, nr,   \* [Tunnels -> Nat]    ghost: data frames produced by the ingress / by the target
           rcvI, rcvX, \* [Tunnels -> Seq(<<tun, n>>)]  ghost: data handed to the ingress application / the target
           viol,     \* ghost: set of isolation violations seen so far
+          hold,     \* [Sides -> NoHold | [tun, e, up]]  entry a transit's frame loop has looked up for the head frame
+          freed,    \* [Agents -> set of entries]  removed entries waiting to be re-used (DevRelayEntryRecycled only)
+          ibuf,     \* [Tunnels -> Nat]  frames in the ingress stream's read buffer, not yet read by the application
+          gen,      \* [Links -> Nat]    generation of the connection (number of reconnects)
+          dirty,    \* set of <<agent, peer>>: connection lost, disconnect clean-up not yet run (Ops "reconn")
           last      \* observation of the last step (hidden by VIEW)
 
-vars == <<linkUp, alloc, net, rup, rdn, ist, pend, isid, xc, zomb, xcnt, ti, tx, nf, nr, rcvI, rcvX, viol, last>>
-view == <<linkUp, alloc, net, rup, rdn, ist, pend, isid, xc, zomb, xcnt, ti, tx, nf, nr, rcvI, rcvX, viol>>
-viewCore == <<linkUp, alloc, net, rup, rdn, ist, pend, isid, xc, zomb, xcnt, ti, tx, nf, nr, rcvI, rcvX>>
+ext == <<hold, freed, ibuf, gen, dirty>>
+vars == <<linkUp, alloc, net, rup, rdn, ist, pend, isid, xc, zomb, xcnt, ti, tx, nf, nr, rcvI, rcvX, viol, ext, last>>
+view == <<linkUp, alloc, net, rup, rdn, ist, pend, isid, xc, zomb, xcnt, ti, tx, nf, nr, rcvI, rcvX, viol, ext>>
+viewCore == <<linkUp, alloc, net, rup, rdn, ist, pend, isid, xc, zomb, xcnt, ti, tx, nf, nr, rcvI, rcvX, ext>>
+NoHold == [tun |-> 0]
 
 Init ==
   /\ linkUp = [l \in Links |-> TRUE]
-  /\ alloc = [s \in Sides |-> IF IsDialer(s[1], s[2]) THEN 1 ELSE 2]
+  /\ alloc = [s \in Sides |-> (IF IsDialer(s[1], s[2]) THEN 1 ELSE 2) + (IF (s[1] \o ">" \o s[2]) \in Burn THEN 2 ELSE 0)]
   /\ net = [s \in Sides |-> <<>>]
   /\ rup = [a \in Agents |-> {}] /\ rdn = [a \in Agents |-> {}]
   /\ ist = [a \in Agents |-> {}]
@@ -126,12 +161,18 @@ Init ==
   /\ nf = [t \in Tunnels |-> 0] /\ nr = [t \in Tunnels |-> 0]
   /\ rcvI = [t \in Tunnels |-> <<>>] /\ rcvX = [t \in Tunnels |-> <<>>]
   /\ viol = {}
+  /\ hold = [s \in Sides |-> NoHold] /\ freed = [a \in Agents |-> {}]
+  /\ ibuf = [t \in Tunnels |-> 0]
+  /\ gen = [l \in Links |-> 0] /\ dirty = {}
   /\ last = [act |-> "Init"]
 
 Up(a, b) == linkUp[LinkOf(a, b)]
-Broken(t) == \E i \in 1..(Len(PathOf(t)) - 1) : ~Up(PathOf(t)[i], PathOf(t)[i + 1])
+\* a connection of the tunnel's path has failed (it may have been replaced by a new one since)
+Broken(t) == \E i \in 1..(Len(PathOf(t)) - 1) :
+                ~Up(PathOf(t)[i], PathOf(t)[i + 1]) \/ gen[LinkOf(PathOf(t)[i], PathOf(t)[i + 1])] > 0
 
-Frame(ty, kind, sid, tun, src, n) == [ty |-> ty, kind |-> kind, sid |-> sid, tun |-> tun, src |-> src, n |-> n]
+\* bad = the payload was damaged / forged on the way (it will not authenticate at the endpoint)
+Frame(ty, kind, sid, tun, src, n) == [ty |-> ty, kind |-> kind, sid |-> sid, tun |-> tun, src |-> src, n |-> n, bad |-> FALSE]
 
 Tail_(q, p, a) == [q EXCEPT ![<<p, a>>] = Tail(@)]     \* the head frame of p -> a is consumed
 
@@ -150,6 +191,9 @@ SendAll(q, sends) ==
 IngressOpen(t) ==
   LET a == Ingress(t)  nh == FirstHop(t)  sid == alloc[<<a, nh>>] IN
   /\ ti[t] = "idle" /\ Up(a, nh)
+  /\ \A i \in 1..(Len(PathOf(t)) - 1) : gen[LinkOf(PathOf(t)[i], PathOf(t)[i + 1])] = 0
+       \* bound: no new tunnel over a re-established connection (its ids start again; connection generations in the
+       \* keys would be needed to tell them from left-overs)
   /\ alloc' = [alloc EXCEPT ![<<a, nh>>] = @ + 2]
   /\ isid' = [isid EXCEPT ![t] = sid]
   /\ pend' = pend \cup {t}
@@ -290,7 +334,8 @@ RecvOpen(a, p, f) ==
             /\ UNCHANGED <<alloc, rup, rdn, ist, pend, xc, zomb, xcnt, ti, tx, rcvI, rcvX, viol>>
             /\ last' = [act |-> "Recv", a |-> a, p |-> p, ty |-> "OPEN", sid |-> f.sid, t |-> t, res |-> "no-next-hop"]
        ELSE LET ds == alloc[<<a, nh>>]
-                e == [tun |-> t, kind |-> f.kind, upeer |-> p, usid |-> f.sid, dpeer |-> nh, dsid |-> ds]
+                e == [tun |-> t, kind |-> f.kind, upeer |-> p, usid |-> f.sid, dpeer |-> nh, dsid |-> ds,
+                      ug |-> gen[LinkOf(a, p)], dg |-> gen[LinkOf(a, nh)]]
                 ku == K("relay", f.kind, p, f.sid)
                 kd == K("relay", f.kind, nh, ds) IN
             /\ alloc' = [alloc EXCEPT ![<<a, nh>>] = @ + 2]
@@ -334,29 +379,48 @@ RecvAckErr(a, p, f) ==
        /\ UNCHANGED <<alloc, rup, rdn, ist, pend, xc, zomb, xcnt, ti, tx, rcvI, rcvX>>
        /\ last' = [act |-> "Recv", a |-> a, p |-> p, ty |-> f.ty, sid |-> f.sid, t |-> t, res |-> "drop"]
 
+\* relay lookup of a data frame (relayTable.LookupBoth + peer comparison)
+\* DevDataNoPeerCheck: the upstream index is consulted by id alone and the peer is not compared
+RelayUpSet(a, p, f) ==
+  IF "DevDataNoPeerCheck" \in Dev
+  THEN {r \in rup[a] : r.v.kind = f.kind /\ r.v.usid = f.sid}
+  ELSE {r \in rup[a] : r.k = K("relay", f.kind, p, f.sid) /\ r.v.upeer = p}
+RelayDnHit(a, p, f) ==
+  Has(rdn[a], K("relay", f.kind, p, f.sid)) /\ Get(rdn[a], K("relay", f.kind, p, f.sid)).dpeer = p
+RelayHit(a, p, f) == RelayUpSet(a, p, f) # {} \/ RelayDnHit(a, p, f)
+\* the data frame would go to an ingress stream whose read buffer is full: the frame loop blocks (back-pressure)
+IngressFull(a, p, f) ==
+  /\ BufCap > 0 /\ f.ty = "DATA" /\ f.n > 0 /\ ~RelayHit(a, p, f)
+  /\ ~Has(xc[a], K("exit", f.kind, p, f.sid))
+  /\ Has(ist[a], K("ingress", f.kind, p, f.sid))
+  /\ ibuf[Get(ist[a], K("ingress", f.kind, p, f.sid))] >= BufCap
+
 \* DATA: LookupBoth + peer comparison, then the exit handler (by id), then the stream manager (by id)
 RecvData(a, p, f) ==
   LET t == f.tun
       kr == K("relay", f.kind, p, f.sid)
-      \* DevDataNoPeerCheck: the upstream index is consulted by id alone and the peer is not compared
-      upSet == IF "DevDataNoPeerCheck" \in Dev
-               THEN {r \in rup[a] : r.v.kind = f.kind /\ r.v.usid = f.sid}
-               ELSE {r \in rup[a] : r.k = kr /\ r.v.upeer = p}
+      upSet == RelayUpSet(a, p, f)
       upHit == upSet # {}
-      dnHit == Has(rdn[a], kr) /\ Get(rdn[a], kr).dpeer = p
+      dnHit == RelayDnHit(a, p, f)
       kx == K("exit", f.kind, p, f.sid)
       ki == K("ingress", f.kind, p, f.sid) IN
   IF upHit \/ dnHit
   THEN LET e == IF upHit THEN (CHOOSE r \in upSet : TRUE).v ELSE Get(rdn[a], kr)
            to == IF upHit THEN e.dpeer ELSE e.upeer
            sid == IF upHit THEN e.dsid ELSE e.usid IN
-       /\ net' = SendAll(Tail_(net, p, a), << <<a, to, Frame("DATA", f.kind, sid, t, f.src, f.n)>> >>)
+       /\ net' = SendAll(Tail_(net, p, a), << <<a, to, [Frame("DATA", f.kind, sid, t, f.src, f.n) EXCEPT !.bad = f.bad]>> >>)
        /\ viol' = viol \cup (IF e.tun # t \/ (upHit /\ f.src # "i") \/ (~upHit /\ f.src # "x") THEN {"misroute:relay"} ELSE {})
        /\ UNCHANGED <<alloc, rup, rdn, ist, pend, xc, zomb, xcnt, ti, tx, rcvI, rcvX>>
        /\ last' = [act |-> "Recv", a |-> a, p |-> p, ty |-> "DATA", sid |-> f.sid, t |-> t, res |-> IF upHit THEN "relay-down" ELSE "relay-up"]
   ELSE IF Has(xc[a], kx)
   THEN LET r == Get(xc[a], kx) IN
-       IF r.tun = t /\ f.src = "i"
+       IF r.tun = t /\ f.src = "i" /\ f.bad /\ "DevDataErrorKeepsRecord" \in Dev
+       THEN \* the socket is closed, the record and its counter unit stay
+            /\ tx' = [tx EXCEPT ![t] = "closed"]
+            /\ net' = Tail_(net, p, a)
+            /\ UNCHANGED <<alloc, rup, rdn, ist, pend, xc, zomb, xcnt, ti, rcvI, rcvX, viol>>
+            /\ last' = [act |-> "Recv", a |-> a, p |-> p, ty |-> "DATA", sid |-> f.sid, t |-> t, res |-> "exit-bad-kept"]
+       ELSE IF r.tun = t /\ f.src = "i" /\ ~f.bad
        THEN /\ rcvX' = [rcvX EXCEPT ![t] = IF f.n > 0 THEN Append(@, <<t, f.n>>) ELSE @]
             /\ net' = Tail_(net, p, a)
             /\ UNCHANGED <<alloc, rup, rdn, ist, pend, xc, zomb, xcnt, ti, tx, rcvI, viol>>
@@ -365,7 +429,7 @@ RecvData(a, p, f) ==
             /\ xc' = [xc EXCEPT ![a] = Del(@, kx)]
             /\ xcnt' = [xcnt EXCEPT ![a] = IF @ > 0 THEN @ - 1 ELSE @]
             /\ tx' = [tx EXCEPT ![r.tun] = IF @ = "open" THEN "closed" ELSE @]
-            /\ viol' = viol \cup {"misroute:exit"}
+            /\ viol' = viol \cup (IF r.tun = t /\ f.bad THEN {} ELSE {"misroute:exit"})   \* (a damaged frame of the tunnel itself)
             /\ net' = SendAll(Tail_(net, p, a), << <<a, p, Frame("CLOSE", f.kind, f.sid, r.tun, "x", 0)>> >>)
             /\ UNCHANGED <<alloc, rup, rdn, ist, pend, zomb, ti, rcvI, rcvX>>
             /\ last' = [act |-> "Recv", a |-> a, p |-> p, ty |-> "DATA", sid |-> f.sid, t |-> t, res |-> "exit-wrong"]
@@ -392,7 +456,7 @@ RecvEnd(a, p, f) ==
   IF upHit \/ dnHit
   THEN LET e == IF upHit THEN Get(rup[a], kr) ELSE Get(rdn[a], kr)
            to == IF upHit THEN e.dpeer ELSE e.upeer
-           sid == IF upHit THEN e.dsid ELSE e.usid
+           sid == IF upHit \/ ("DevCloseUpstreamWrongId" \in Dev /\ f.kind # "tcp") THEN e.dsid ELSE e.usid
            half == "DevNoReverseIndexDelete" \in Dev IN
        /\ rup' = [rup EXCEPT ![a] = IF half /\ ~upHit THEN @ ELSE DelEntryUp(@, a, e)]
        /\ rdn' = [rdn EXCEPT ![a] = IF half /\ upHit THEN @ ELSE DelEntryDn(@, a, e)]
@@ -401,6 +465,11 @@ RecvEnd(a, p, f) ==
                        \cup (IF ClobbersOnDelete(a, e) THEN {"clobber:relay"} ELSE {})
        /\ UNCHANGED <<alloc, ist, pend, xc, zomb, xcnt, ti, tx, rcvI, rcvX>>
        /\ last' = [act |-> "Recv", a |-> a, p |-> p, ty |-> f.ty, sid |-> f.sid, t |-> t, res |-> IF upHit THEN "relay-down" ELSE "relay-up"]
+  ELSE IF Has(xc[a], kx) /\ "DevDataErrorKeepsRecord" \in Dev /\ tx[Get(xc[a], kx).tun] = "closed"
+  THEN \* "someone else owns the clean-up": the record of the already closed socket is left alone
+       /\ net' = Tail_(net, p, a)
+       /\ UNCHANGED <<alloc, rup, rdn, ist, pend, xc, zomb, xcnt, ti, tx, rcvI, rcvX, viol>>
+       /\ last' = [act |-> "Recv", a |-> a, p |-> p, ty |-> f.ty, sid |-> f.sid, t |-> t, res |-> "exit-kept"]
   ELSE IF Has(xc[a], kx)
   THEN LET r == Get(xc[a], kx) IN
        /\ xc' = [xc EXCEPT ![a] = Del(@, kx)]
@@ -425,6 +494,10 @@ RecvEnd(a, p, f) ==
 
 Recv(a, p) ==
   /\ <<p, a>> \in Sides /\ net[<<p, a>>] # <<>>
+  /\ hold[<<p, a>>].tun = 0                                   \* the frame loop is not inside a handler
+  /\ LET f == Head(net[<<p, a>>]) IN
+       /\ ~(Split /\ f.ty = "DATA" /\ RelayHit(a, p, f))      \* two-step handling: RelayLookup, RelaySend
+       /\ ~IngressFull(a, p, f)                               \* back-pressure: the loop waits for the reader
   /\ LET f == Head(net[<<p, a>>]) IN
        CASE f.ty = "OPEN" -> RecvOpen(a, p, f)
          [] f.ty \in {"ACK", "ERR"} -> RecvAckErr(a, p, f)
@@ -443,22 +516,128 @@ DeleteByPeer(a, peer) ==
   [up |-> rup[a] \ hit,
    dn |-> {q \in rdn[a] : ~\E r \in hit : q.k = K("relay", r.v.kind, r.v.dpeer, r.v.dsid)}]
 
+\* With "reconn" in Ops the failure is observed in two phases, as in the code: the peer manager drops the connection
+\* (LinkDown), and later each end runs its disconnect callback (DiscCleanup); the peer may reconnect in between.
 LinkDown(l) ==
   /\ "disc" \in Ops /\ linkUp[l]
   /\ linkUp' = [linkUp EXCEPT ![l] = FALSE]
   /\ net' = [net EXCEPT ![<<l[1], l[2]>>] = <<>>, ![<<l[2], l[1]>>] = <<>>]
-  /\ rup' = [a \in Agents |-> IF a = l[1] THEN DeleteByPeer(a, l[2]).up
-                              ELSE IF a = l[2] THEN DeleteByPeer(a, l[1]).up ELSE rup[a]]
-  /\ rdn' = [a \in Agents |-> IF a = l[1] THEN DeleteByPeer(a, l[2]).dn
-                              ELSE IF a = l[2] THEN DeleteByPeer(a, l[1]).dn ELSE rdn[a]]
-  /\ UNCHANGED <<alloc, ist, pend, isid, xc, zomb, xcnt, ti, tx, nf, nr, rcvI, rcvX, viol>>
+  /\ IF "reconn" \in Ops
+     THEN /\ dirty' = dirty \cup {<<l[1], l[2]>>, <<l[2], l[1]>>}
+          /\ UNCHANGED <<rup, rdn>>
+     ELSE /\ rup' = [a \in Agents |-> IF a = l[1] THEN DeleteByPeer(a, l[2]).up
+                                      ELSE IF a = l[2] THEN DeleteByPeer(a, l[1]).up ELSE rup[a]]
+          /\ rdn' = [a \in Agents |-> IF a = l[1] THEN DeleteByPeer(a, l[2]).dn
+                                      ELSE IF a = l[2] THEN DeleteByPeer(a, l[1]).dn ELSE rdn[a]]
+          /\ UNCHANGED dirty
+  /\ UNCHANGED <<alloc, ist, pend, isid, xc, zomb, xcnt, ti, tx, nf, nr, rcvI, rcvX, viol, gen>>
   /\ last' = [act |-> "LinkDown", a |-> l[1], p |-> l[2]]
 
-Next ==
-  \/ \E t \in Tunnels : IngressOpen(t) \/ IngressAbort(t) \/ IngressSend(t) \/ TargetSend(t) \/ TargetClose(t)
+\* handlePeerDisconnect of agent a for peer p (Ops "reconn")
+DiscCleanup(a, p) ==
+  /\ <<a, p>> \in dirty
+  /\ dirty' = dirty \ {<<a, p>>}
+  /\ IF "DevSkipCleanupIfReconnected" \in Dev /\ Up(a, p)
+     THEN UNCHANGED <<rup, rdn>>
+     ELSE /\ rup' = [rup EXCEPT ![a] = DeleteByPeer(a, p).up]
+          /\ rdn' = [rdn EXCEPT ![a] = DeleteByPeer(a, p).dn]
+  /\ UNCHANGED <<linkUp, alloc, net, ist, pend, isid, xc, zomb, xcnt, ti, tx, nf, nr, rcvI, rcvX, viol, gen>>
+  /\ last' = [act |-> "DiscCleanup", a |-> a, p |-> p]
+
+\* the peer connects again (at most once per link): a new connection, new allocators
+Reconnect(l) ==
+  /\ "reconn" \in Ops /\ ~linkUp[l] /\ gen[l] = 0
+  /\ \A t \in Tunnels : ti[t] = "opening" =>
+        ~\E i \in 1..(Len(PathOf(t)) - 1) : LinkOf(PathOf(t)[i], PathOf(t)[i + 1]) = l     \* (same bound)
+  /\ linkUp' = [linkUp EXCEPT ![l] = TRUE]
+  /\ gen' = [gen EXCEPT ![l] = 1]
+  /\ alloc' = [alloc EXCEPT ![<<l[1], l[2]>>] = 1, ![<<l[2], l[1]>>] = 2]
+  /\ UNCHANGED <<net, rup, rdn, ist, pend, isid, xc, zomb, xcnt, ti, tx, nf, nr, rcvI, rcvX, viol, dirty>>
+  /\ last' = [act |-> "Reconnect", a |-> l[1], p |-> l[2]]
+
+\* the exit's idle timer ends a UDP association / ICMP session: close frame towards the ingress, no FIN
+ExitExpire(t) ==
+  LET x == ExitOf(t) IN
+  /\ "xexpire" \in Ops /\ tx[t] = "open" /\ KindOf(t) # "tcp"
+  /\ \E c \in XConnOf(x, t) : XClose(x, t, c.peer, c.sid, FALSE)
+  /\ UNCHANGED <<linkUp, alloc, rup, rdn, ist, pend, isid, ti, nf, nr, rcvI, rcvX>>
+  /\ last' = [act |-> "ExitExpire", t |-> t, a |-> x]
+
+\* a data frame of the ingress is damaged / forged on a link
+Corrupt(s) ==
+  /\ "corrupt" \in Ops /\ net[s] # <<>>
+  /\ Head(net[s]).ty = "DATA" /\ Head(net[s]).src = "i" /\ Head(net[s]).n > 0 /\ ~Head(net[s]).bad
+  /\ \A q \in Sides : \A i \in 1..Len(net[q]) : ~net[q][i].bad      \* one damaged frame at a time
+  /\ net' = [net EXCEPT ![s] = <<[Head(@) EXCEPT !.bad = TRUE]>> \o Tail(@)]
+  /\ UNCHANGED <<linkUp, alloc, rup, rdn, ist, pend, isid, xc, zomb, xcnt, ti, tx, nf, nr, rcvI, rcvX, viol>>
+  /\ last' = [act |-> "Corrupt", a |-> s[1], p |-> s[2]]
+
+\* the actions above do not mention the extension variables: they follow from the step
+ExtDerive ==
+  LET ents(up, dn) == {r.v : r \in up \cup dn}
+      popped(a) == ents(rup[a], rdn[a]) \ ents(rup'[a], rdn'[a])
+      added(a)  == ents(rup'[a], rdn'[a]) \ ents(rup[a], rdn[a])
+      recyc == "DevRelayEntryRecycled" \in Dev
+      reused(a) == IF recyc /\ added(a) # {} /\ freed[a] # {} THEN {CHOOSE f \in freed[a] : TRUE} ELSE {} IN
+  /\ freed' = [a \in Agents |-> IF recyc THEN (freed[a] \cup popped(a)) \ reused(a) ELSE {}]
+  /\ hold' = [s \in Sides |-> IF ~linkUp'[LinkOf(s[1], s[2])] THEN NoHold
+                               ELSE IF hold[s].tun # 0 /\ hold[s].e \in reused(s[2])
+                               THEN [hold[s] EXCEPT !.e = CHOOSE n \in added(s[2]) : TRUE]   \* the struct now describes the new tunnel
+                               ELSE hold[s]]
+  /\ ibuf' = [t \in Tunnels |-> IF BufCap = 0 THEN 0 ELSE ibuf[t] + Len(rcvI'[t]) - Len(rcvI[t])]
+
+\* first half of the transit's data handler: table lookup (+ peer comparison) under the table lock
+RelayLookup(a, p) ==
+  LET s == <<p, a>> IN
+  /\ Split /\ s \in Sides /\ net[s] # <<>> /\ hold[s].tun = 0
+  /\ LET f == Head(net[s])  upSet == RelayUpSet(a, p, f) IN
+       /\ f.ty = "DATA" /\ RelayHit(a, p, f)
+       /\ hold' = [hold EXCEPT ![s] = [tun |-> f.tun, up |-> upSet # {},
+                                        e |-> IF upSet # {} THEN (CHOOSE r \in upSet : TRUE).v
+                                              ELSE Get(rdn[a], K("relay", f.kind, p, f.sid))]]
+       /\ last' = [act |-> "RelayLookup", a |-> a, p |-> p, sid |-> f.sid, t |-> f.tun]
+  /\ UNCHANGED <<linkUp, alloc, net, rup, rdn, ist, pend, isid, xc, zomb, xcnt, ti, tx, nf, nr, rcvI, rcvX, viol, freed, ibuf, gen, dirty>>
+
+\* second half: the forwarded frame is built from the entry that was looked up, and sent
+RelaySend(a, p) ==
+  LET s == <<p, a>> IN
+  /\ s \in Sides /\ hold[s].tun # 0
+  /\ LET h == hold[s]  f == Head(net[s])
+         to == IF h.up THEN h.e.dpeer ELSE h.e.upeer
+         sid == IF h.up THEN h.e.dsid ELSE h.e.usid IN
+       /\ net' = SendAll(Tail_(net, p, a), << <<a, to, [Frame("DATA", f.kind, sid, f.tun, f.src, f.n) EXCEPT !.bad = f.bad]>> >>)
+       /\ viol' = viol \cup (IF h.e.tun # f.tun THEN {"misroute:relay"} ELSE {})
+       /\ last' = [act |-> "RelaySend", a |-> a, p |-> p, sid |-> f.sid, t |-> f.tun]
+  /\ hold' = [hold EXCEPT ![s] = NoHold]
+  /\ UNCHANGED <<linkUp, alloc, rup, rdn, ist, pend, isid, xc, zomb, xcnt, ti, tx, nf, nr, rcvI, rcvX, freed, ibuf, gen, dirty>>
+
+\* the ingress application takes one frame out of its stream's read buffer
+IngressRead(t) ==
+  /\ BufCap > 0 /\ ibuf[t] > 0
+  /\ ibuf' = [ibuf EXCEPT ![t] = @ - 1]
+  /\ UNCHANGED <<linkUp, alloc, net, rup, rdn, ist, pend, isid, xc, zomb, xcnt, ti, tx, nf, nr, rcvI, rcvX, viol, hold, freed, gen, dirty>>
+  /\ last' = [act |-> "IngressRead", t |-> t, a |-> Ingress(t)]
+
+\* DevPushTimeoutDrop: the frame loop gives up waiting for the reader and the frame is lost
+PushTimeout(a, p) ==
+  /\ "DevPushTimeoutDrop" \in Dev /\ <<p, a>> \in Sides /\ net[<<p, a>>] # <<>> /\ hold[<<p, a>>].tun = 0
+  /\ IngressFull(a, p, Head(net[<<p, a>>]))
+  /\ net' = Tail_(net, p, a)
+  /\ UNCHANGED <<linkUp, alloc, rup, rdn, ist, pend, isid, xc, zomb, xcnt, ti, tx, nf, nr, rcvI, rcvX, viol, hold, freed, ibuf, gen, dirty>>
+  /\ last' = [act |-> "PushTimeout", a |-> a, p |-> p]
+
+Base ==
+  \/ \E t \in Tunnels : IngressOpen(t) \/ IngressAbort(t) \/ IngressSend(t) \/ TargetSend(t) \/ TargetClose(t) \/ ExitExpire(t)
   \/ \E t \in Tunnels, ty \in {"CLOSE", "RESET"} : IngressEnd(t, ty)
-  \/ \E s \in Sides : Recv(s[2], s[1])
-  \/ \E l \in Links : LinkDown(l)
+  \/ \E s \in Sides : Recv(s[2], s[1]) \/ Corrupt(s)
+
+Next ==
+  \/ Base /\ ExtDerive /\ UNCHANGED <<gen, dirty>>
+  \/ (\E l \in Links : LinkDown(l)) /\ ExtDerive
+  \/ (\E s \in Sides : DiscCleanup(s[1], s[2])) /\ ExtDerive
+  \/ (\E l \in Links : Reconnect(l)) /\ ExtDerive
+  \/ \E s \in Sides : RelayLookup(s[2], s[1]) \/ RelaySend(s[2], s[1]) \/ PushTimeout(s[2], s[1])
+  \/ \E t \in Tunnels : IngressRead(t)
 
 Spec == Init /\ [][Next]_vars
 
@@ -485,7 +664,8 @@ IndexConsistent ==
 CounterExact == \A a \in Agents : xcnt[a] = Cardinality(xc[a]) + Cardinality(zomb[a])
 
 Quiescent ==
-  /\ \A s \in Sides : net[s] = <<>>
+  /\ \A s \in Sides : net[s] = <<>> /\ hold[s].tun = 0
+  /\ dirty = {} /\ \A t \in Tunnels : ibuf[t] = 0
   /\ \A t \in Tunnels : ti[t] \in {"idle", "closed", "failed"} /\ tx[t] \in {"none", "closed", "failed"}
 \* C17: once all tunnels are gone nothing is left
 BookkeepingEmpty ==
@@ -493,7 +673,14 @@ BookkeepingEmpty ==
                /\ pend = {}
 \* C17, disconnect part: a relay entry never refers to a peer whose connection is gone
 NoEntryForDeadPeer ==
-  \A a \in Agents : \A r \in rup[a] \cup rdn[a] : Up(a, r.v.upeer) /\ Up(a, r.v.dpeer)
+  \A a \in Agents : \A r \in rup[a] \cup rdn[a] :
+     /\ (Up(a, r.v.upeer) \/ <<a, r.v.upeer>> \in dirty)
+     /\ (Up(a, r.v.dpeer) \/ <<a, r.v.dpeer>> \in dirty)
+\* C17, reconnect part: once the disconnect handling has run, no entry belongs to a connection that no longer exists
+NoStaleEntry ==
+  \A a \in Agents : \A r \in rup[a] \cup rdn[a] :
+     /\ (<<a, r.v.upeer>> \notin dirty => r.v.ug = gen[LinkOf(a, r.v.upeer)])
+     /\ (<<a, r.v.dpeer>> \notin dirty => r.v.dg = gen[LinkOf(a, r.v.dpeer)])
 
 TypeOK ==
   /\ \A s \in Sides : Len(net[s]) <= 12
@@ -503,6 +690,8 @@ State == [linkUp |-> {l \in Links : linkUp[l]},
           alloc |-> {[s |-> s, v |-> alloc[s]] : s \in Sides},
           net |-> {[s |-> s, q |-> net[s]] : s \in {x \in Sides : net[x] # <<>>}}, rup |-> rup, rdn |-> rdn, ist |-> ist, pend |-> pend,
           isid |-> isid, xc |-> xc, zomb |-> zomb, xcnt |-> xcnt, ti |-> ti, tx |-> tx, nf |-> nf, nr |-> nr,
-          rcvI |-> rcvI, rcvX |-> rcvX]
+          rcvI |-> rcvI, rcvX |-> rcvX,
+          hold |-> {[s |-> s, h |-> hold[s]] : s \in {x \in Sides : hold[x].tun # 0}}, freed |-> freed, ibuf |-> ibuf,
+          gen |-> {[s |-> l, v |-> gen[l]] : l \in Links}, dirty |-> dirty]
 EmitEdge == Emit => PrintT("EDGE " \o ToJson([s |-> State, a |-> last', t |-> State', v |-> viol']))
 =============================================================================
